@@ -1,7 +1,8 @@
 import XsVerif.Props.C03
 import XsVerif.Props.C03Types
 import XsVerif.Props.C03Deriv
-open XsVerif.Props.C03 XsVerif.Props.C03Types XsVerif.Props.C03Deriv
+import XsVerif.Props.C03Fixed
+open XsVerif.Props.C03 XsVerif.Props.C03Types XsVerif.Props.C03Deriv XsVerif.Props.C03Fixed
 #print axioms attrs_valid_iff
 #print axioms oldstep_admits_counterexample
 #print axioms oldstep_injects_counterexample
@@ -29,3 +30,10 @@ open XsVerif.Props.C03 XsVerif.Props.C03Types XsVerif.Props.C03Deriv
 #print axioms valid_perm
 #print axioms id_build_iff
 #print axioms defaults_decl_iff
+#print axioms attrs_valid_iff_variants
+#print axioms variants_agree_unmarked
+#print axioms required_error_located_variants
+#print axioms semCatV_false
+#print axioms attrs_valid_iff_cat_variants
+#print axioms extQ_valid
+#print axioms fixed_test_value
